@@ -263,6 +263,20 @@ class SimFS:
             raise OSError(ERRNOS[flt["errno"]], os.strerror(ERRNOS[flt["errno"]]), os.fspath(path))
         return real_fn(path, *a, **kw)
 
+    def os_open(self, real_fn, path, flags, *a, **kw):
+        """os.open on the simulated disk: logged like open() and failable like it (data written through the
+        descriptor goes straight to the file - there is no user-space buffer to lose)."""
+        rel = self._rel(path) if isinstance(path, (str, bytes, os.PathLike)) and kw.get("dir_fd") is None else None
+        if rel is None:
+            return real_fn(path, flags, *a, **kw)
+        writing = bool(flags & (os.O_WRONLY | os.O_RDWR | os.O_CREAT | os.O_TRUNC | os.O_APPEND))
+        mode = "w" if writing else "r"
+        self._event("open:" + mode + ":os", rel, 0)
+        flt = self._fault("open", rel, mode)
+        if flt is not None:
+            raise OSError(ERRNOS[flt["errno"]], os.strerror(ERRNOS[flt["errno"]]), os.fspath(path))
+        return real_fn(path, flags, *a, **kw)
+
     def rename(self, real_fn, src, dst, *a, **kw):
         """os.rename / os.replace seen by the simulated disk (atomic replace of a finished temp file)."""
         rs, rd = self._rel(src), self._rel(dst)
@@ -702,7 +716,8 @@ class World:
         so, se = Sink(), Sink()
         old = (sys.stdout, sys.stderr, sys.argv, builtins.open, io.open, os.rename, os.replace)
         old_proc = (_atexit.register, _atexit.unregister, _signal.signal, _signal.getsignal,
-                    os.remove, os.unlink, os.mkdir, os.rmdir)
+                    os.remove, os.unlink, os.mkdir, os.rmdir, os.open)
+        os.open = lambda p_, fl_, *a, **kw: fs.os_open(old_proc[8], p_, fl_, *a, **kw)
         _atexit.register, _atexit.unregister = self._atexit_register, self._atexit_unregister
         _signal.signal, _signal.getsignal = self._signal_signal, self._signal_getsignal
         os.remove = lambda p_, *a, **kw: fs.syscall("remove", old_proc[4], p_, *a, **kw)
@@ -818,7 +833,7 @@ class World:
             io.open = old[4]
             os.rename, os.replace = old[5], old[6]
             (_atexit.register, _atexit.unregister, _signal.signal, _signal.getsignal,
-             os.remove, os.unlink, os.mkdir, os.rmdir) = old_proc
+             os.remove, os.unlink, os.mkdir, os.rmdir, os.open) = old_proc
             io.text_encoding, _locale.getpreferredencoding = old_loc[0], old_loc[1]
             if old_loc[2] is not None:
                 _locale.getencoding = old_loc[2]
